@@ -364,3 +364,11 @@ def _groups_desc(L, k):
 
 groups_desc = Schema('C01.load.groups_desc', [('L', LINES.sort()), ('k', T.IntS)], _groups_desc, induction='k',
                      doc='a file whose probabilities are non-increasing yields strictly decreasing group probabilities')
+
+
+def install_reader(eng):
+    """engine set-up under which _load_from_file is verified (file model of the trainer side; A-CODEC on the reader side)"""
+    import contracts.trainer_detect as td
+    import contracts.trainer_io as tio
+    td.install(eng)
+    tio.install(eng, encode_may_fail=False)
